@@ -74,7 +74,9 @@ def macroExpand (fs : Fs) (macros : List (Str × List (Nat × Str)))
     | .ok (inner, _) =>
       .ok ({ st with ctx := inner.ctx, macros := inner.macros, macroName := inner.macroName,
                      messages := inner.messages },
-           inner.segments.filter fun s => !s.items.isEmpty)
+           -- non-empty segments, and the last one whatever it holds (where the body left off)
+           ((List.zip (List.range inner.segments.length) inner.segments).filter fun (i, s) =>
+              i + 1 = inner.segments.length || !s.items.isEmpty).map (·.2))
     | .error e => .error e
     | .panic s => .panic s
     | .oof => .oof
